@@ -30,6 +30,7 @@ var vfC18Kinds = []string{"READ", "READ", "READ", "READ", "WRITE", "WRITE", "FST
 
 func vfGenC18(t *rapid.T) vfCaseC18 {
 	c := vfCaseC18{Srv: vfGenSrvCfg(t)}
+	vfMaybeReadOnly(t, &c.Srv)
 	c.Srv.HOpts.OpenFile = false
 	np := rapid.IntRange(1, 2).Draw(t, "phases")
 	for i := 0; i < np; i++ {
